@@ -88,6 +88,10 @@ def build(c, spec, prev=None):
         pool = NOAUTH_PATHS * 3 + AUTH_PATHS
         key = rng.choice(pool)
         h = rng.randbytes(32)
+        if rng.random() < 0.25:
+            # zero bytes at an end (or all zeros / all ones): 32 bytes all the same
+            z = rng.choice([1, 1, 2, 8, 31, 32])
+            h = rng.choice([(bytes(z) + h)[:32], (h + bytes(z))[-32:], b"\xff" * 32])
         out["req"] = rq.sign_hash_request(key, h, version=1 if c["v1"] else 5)
         out["key"] = key
         out["hash"] = h
